@@ -220,6 +220,9 @@ def harness(cfgk, rel, can_view, outk, raises, guard, constk, p0state):
                     outl.append(a)
             return outl
 
+        # whether an array is currently tracked (locked on behalf of some other live graph) is arbitrary: _op's own locking must not
+        # depend on it
+        cfg.summaries[f"{LM}:array_is_tracked"] = lambda i_, a_, k_: z3.Bool(f"tracked[{getattr(a_[0], 'name', '?')}#{len(ev)}]")
         cfg.summaries[f"{LM}:unique_arrs_and_bases"] = uniq
         cfg.summaries[f"{LM}:lock_arr_writeability"] = lambda i_, a, k: (ev.append(("lock", a[0], k)), a[0])[1]
 
